@@ -4,6 +4,7 @@ package main
 // one PRNG seeded by VERIF_SEED (DESIGN.md section 4b).
 
 import (
+	"unicode/utf8"
 	"bufio"
 	"fmt"
 	"math"
@@ -56,7 +57,9 @@ var unstableClusters = []string{
 var wsStable = []string{" ", " ", " ", " ", "\t", " ", "　"}
 var wsAll = []string{" ", " ", " ", "\t", " ", "　", " ", "\r\n", "\v"}
 
-var lineSeps = []string{"\n", "\n", "\n", "\r\n", "|", "<br>", "·\n"}
+// "--" and "||" overlap themselves: "a---" holds one separator and a stray "-", and
+// strings.Count/HasSuffix-style shortcuts disagree with strings.Split there
+var lineSeps = []string{"\n", "\n", "\n", "\r\n", "|", "<br>", "·\n", "--", "||"}
 var paraSeps = []string{"\n\n", "\n\n", "\n\n", "\r\n\r\n", "\n--\n", "<P>\n</P>", "||", "¶"}
 
 // mode: 0 = stable only, 1 = mostly stable with some unstable, 2 = ascii letters only,
@@ -166,6 +169,18 @@ func (g *gen) text(mode int, lineSep, paraSep string) string {
 	}
 	if g.chance(0.1) {
 		s += paraSep
+	}
+	if len(lineSep) > 1 && lineSep[0] == lineSep[1] && g.chance(0.5) {
+		// a stray half of a self-overlapping separator right before / after a real one
+		half := lineSep[:1]
+		switch g.r.Intn(3) {
+		case 0:
+			s += half
+		case 1:
+			s = strings.Replace(s, lineSep, half+lineSep, 1)
+		default:
+			s = strings.Replace(s, lineSep, lineSep+half, 1) + lineSep + half
+		}
 	}
 	return s
 }
@@ -468,6 +483,28 @@ func (g *gen) optsArg(o rosed.Options) string {
 	return encOpts(o)
 }
 
+// ill-formed byte sequences (Go decodes every such byte as a separate U+FFFD of width 1)
+var rawSeqs = []string{"\xe9", "\xff", "\x80", "\xc0\xaf", "\xe4\xb8", "\xed\xa0\x80", "\xf0\x9f\x87", "\xc3"}
+
+// dirty inserts one to three ill-formed byte sequences into t, mostly at character
+// boundaries, sometimes in the middle of a multi-byte character (which truncates it).
+// Only for groups whose operations move bytes without re-encoding them (selection, commit,
+// insert/delete/overtype, line splitting): an operation that goes through []rune and back
+// replaces the bytes by U+FFFD, which the model does not represent.
+func (g *gen) dirty(t string) string {
+	n := 1 + g.r.Intn(3)
+	for i := 0; i < n; i++ {
+		pos := g.r.Intn(len(t) + 1)
+		if !g.chance(0.2) {
+			for pos > 0 && pos < len(t) && !utf8.RuneStart(t[pos]) {
+				pos--
+			}
+		}
+		t = t[:pos] + g.pick(rawSeqs) + t[pos:]
+	}
+	return t
+}
+
 func (g *gen) modeFor() int {
 	switch g.r.Intn(10) {
 	case 0, 1:
@@ -487,6 +524,9 @@ func (g *gen) groupChars(n int) {
 		t := g.text(mode, ls, ps)
 		if g.chance(0.5) {
 			t = g.line(mode, 4)
+		}
+		if g.chance(0.1) {
+			t = g.dirty(t)
 		}
 		cc := clusterCount(t)
 		var step string
@@ -602,10 +642,16 @@ func (g *gen) groupEdit(n int) {
 			_ = o
 			t = g.text(mode, ls, ps)
 		}
+		if g.chance(0.1) {
+			t = g.dirty(t)
+		}
 		cc := clusterCount(t)
 		ins := g.word(mode, 4)
 		if g.chance(0.1) {
 			ins = ""
+		}
+		if g.chance(0.05) {
+			ins = g.dirty(ins)
 		}
 		var step string
 		switch g.r.Intn(3) {
@@ -638,6 +684,9 @@ func (g *gen) groupLines(n int) {
 		mode := g.modeFor()
 		o, ls, ps := g.opts(mode)
 		t := g.text(mode, ls, ps)
+		if g.chance(0.1) {
+			t = g.dirty(t)
+		}
 		lc := strings.Count(t, ls) + 1
 		var step string
 		switch g.r.Intn(3) {
